@@ -71,6 +71,16 @@ NavOK(cfg, s, o) ==
     /\ \A i \in DOMAIN o.ceil : LET c == o.ceil[i] IN
           /\ CeilingOK(cfg, s, c[1], <<c[2], c[4]>>)
           /\ (c[4] => <<c[3], TRUE>> = GetRet(cfg, s, c[2], cfg.zero))
+\* beyond the listed operations (same property, further navigation API): GetNode finds exactly the
+\* live keys; AVL Node.Next / Node.Prev are the in-order neighbours
+MoreNavOK(cfg, s, o) ==
+  /\ \A i \in DOMAIN o.gn : LET g == o.gn[i]  h == Hits(cfg, s, g[1]) IN
+        /\ g[3] = (h # {})
+        /\ (g[3] => KeyEq(cfg, g[2], g[1]))
+  /\ \A i \in DOMAIN o.succ : LET r == o.succ[i]
+                                     p == CHOOSE j \in DOMAIN s : K(s[j]) = r[1] IN
+        /\ r[3] = (p < Len(s)) /\ (r[3] => r[2] = K(s[p + 1]))
+        /\ r[5] = (p > 1)      /\ (r[5] => r[4] = K(s[p - 1]))
 C02(pre, e) ==
   e.cfg.sorted =>
     LET cfg == e.cfg  o == e.post  s == EntRaw(o) IN
@@ -80,6 +90,7 @@ C02(pre, e) ==
     /\ (cfg.vsorted => Ascending(cfg.vcmp, o.vals))                  \* TreeBidiMap: values by the value comparator
     /\ (o.hasiter => o.iter = s)                                     \* iteration in the same order
     /\ NavOK(cfg, s, o)
+    /\ MoreNavOK(cfg, s, o)
 
 \* ---- C07: balance (shape of the exported structure, comparator work) ---------------------------
 C07(pre, e) ==
@@ -113,6 +124,7 @@ C10(pre, e) ==
 C15(pre, e) ==
   Completed(e) =>
     /\ SizeOK(e.kind, e.post, TRUE)
+    /\ (e.post.nsz >= 0 => e.post.nsz = e.post.size)              \* Root.Size() (red-black, AVL) counts the same nodes
     /\ (e.op = "Clear" => e.post.keys = <<>> /\ e.post.vals = <<>> /\ e.post.size = 0 /\ e.post.empty)
     /\ PureOK(e)
 
